@@ -110,6 +110,14 @@ theorem C10_captured_bytes_records (S : Schema) (id : Nat) (n : Nat) (b : Bytes)
       ((unknownOf S id rs).map fun r => Wire.tag r.num r.wire ++ r.raw).flatten = some (unknownOf S id rs) :=
   captured_bytes_records S id n b rs hr
 
+/-- … so every captured byte string the decoder can produce meets the `unrecOk` premise of strict
+well-typedness — the hypothesis about `XXX_unrecognized` under which the round-trip theorems
+(C03, C08, C12) are stated is met by every value that comes out of a decode -/
+theorem C10_captured_unrecOk (S : Schema) (id : Nat) (n : Nat) (b : Bytes) (rs : List Record)
+    (hr : records n b = some rs) :
+    unrecOk (S.msg id).fields ((unknownOf S id rs).map fun r => Wire.tag r.num r.wire ++ r.raw).flatten = true :=
+  captured_unrecOk S id n b rs hr
+
 /-- FORWARDING CHAIN, any capturing intermediary (it may know any subset of the fields): the
 re-marshalled bytes are the canonical encoding of its known part followed by the captured records,
 and a receiver that accepts the known part then applies exactly the sender's records the
